@@ -187,9 +187,9 @@ theorem later_calls_error (cfg : Cfg) (hsbd : shutBeforeDrain cfg.failOrder = tr
   simp only [run, List.foldl_cons, List.foldl_nil]
   have herase : List.filter (fun e => e.1 != s.nextId) s.pending = s.pending := erase_of_not_mem hfresh
   simp [step, hc, setCall, canRegister, canWrite, hrbw, hfresh, hshut, removes, hrm, Abandon.outcome,
-    erase, hwr, herase]
+    erase, herase]
 
-example : (run Gen.Mux.wsCfg State.init [.readErr, .failStep, .failStep, .failStep, .failStep, .failStep]).reader = .finished 0 := by
+example : (run Gen.Mux.wsCfg State.init (.readErr :: List.replicate 12 .failStep)).reader = .finished 0 := by
   decide
 
 /-- Number of own steps a call still needs before it returns. -/
@@ -218,7 +218,7 @@ theorem subscriber_eof (cfg : Cfg) (ht : FailStep.takeNotify ∈ cfg.failOrder) 
     (g0 : Nat) (hf : s.reader = .finished g0) : ∀ g, s.sub = some g → g0 ≤ g :=
   ((hs.sinv ht).fin g0 hf).2
 
-example : (run Gen.Mux.wsCfg State.init [.subscribe, .readErr, .failStep, .failStep, .failStep, .failStep, .failStep]).sub = none := by
+example : (run Gen.Mux.wsCfg State.init (.subscribe :: .readErr :: List.replicate 12 .failStep)).sub = none := by
   decide
 
 /-- A call that has returned — normally, by timeout, by cancellation or with a write error — has no
